@@ -1,8 +1,18 @@
 package c20
 
-// buildEntries lists every entry point in exploration order.
+// buildEntries lists every entry point in exploration order (cheap ones
+// first, so that a time cap would cut the most expensive space last).
 func buildEntries() []entryPoint {
 	return []entryPoint{
+		newStorageEntry(),
+		newManifestEntry(),
+		newIndexEntry(),
+		newValuesEntry(),
+		newPluginEntry(),
+		newProvEntry(),
+		newArchiveEntry(),
+		newIgnoreEntry(),
+		newStrvalsEntry(),
 		newChartEntry(),
 	}
 }
